@@ -57,6 +57,14 @@ def _reset_process_state() -> None:
                     clear = getattr(attr, 'cache_clear', None)
                     if callable(clear):
                         clear()
+    # validators are also reachable through a module-level instance captured at registration time; methods are
+    # registered per run, so a fresh instance per run keeps instance-level state from crossing run boundaries
+    disp = _sys.modules.get('pjrpc.server.dispatcher')
+    if disp is not None and hasattr(disp, 'default_validator'):
+        try:
+            disp.default_validator = type(disp.default_validator)()
+        except Exception:  # noqa: BLE001
+            pass
 
 
 def execute(prop: str, family: str, seed: Optional[int], prefix: Sequence[int] = (),
@@ -346,6 +354,56 @@ def print_digests(prop: str, base: int, per_family: int) -> int:
     return 0
 
 
+def _digest_chunk(args: Tuple[str, str, int, List[int]]) -> Dict[str, str]:
+    prop, family, base, idxs = args
+    return {f'{family}/{i}': execute(prop, family, _seed_for(base, prop, family, i))['digest'] for i in idxs}
+
+
+def digest_map(prop: str, base: int, n: int, workers: int) -> Dict[str, str]:
+    mod = load_prop(prop)
+    tasks = []
+    for family in mod.FAMILIES:
+        for k in range(0, n, 20):
+            tasks.append((prop, family, base, list(range(k, min(n, k + 20)))))
+    out: Dict[str, str] = {}
+    with ProcessPoolExecutor(max_workers=workers, mp_context=get_context('fork')) as pool:
+        for part in pool.map(_digest_chunk, tasks):
+            out.update(part)
+    return out
+
+
+def selftest_deep(props: List[str], base: int, n: int) -> int:
+    """Many seeds, three configurations (worker count x PYTHONHASHSEED, each a fresh interpreter), digests diffed."""
+    import hashlib
+    configs = [(16, '0'), (3, '987'), (11, '31337')]
+    report: Dict[str, Any] = {'seeds_per_family': n, 'configs': configs, 'properties': {}}
+    bad = 0
+    for prop in props:
+        maps = []
+        for workers, hs in configs:
+            env = dict(os.environ, PYTHONHASHSEED=hs, VERIF_SEED=str(base))
+            out = subprocess.run([sys.executable, '-m', 'pjsim.runner', prop, '--digest-map', str(n), '--workers',
+                                  str(workers)], env=env, capture_output=True, text=True, timeout=3600)
+            if out.returncode != 0:
+                print(f'SELFTEST-FAIL {prop}: digest-map run failed: {out.stderr[-400:]}')
+                bad += 1
+                maps.append({})
+                continue
+            maps.append(json.loads(out.stdout.strip().splitlines()[-1]))
+        diffs = [k for k in maps[0] if any(m.get(k) != maps[0][k] for m in maps[1:])]
+        report['properties'][prop] = {
+            'runs_compared': len(maps[0]), 'diverging': len(diffs),
+            'digest_of_digests': hashlib.sha256(json.dumps(maps[0], sort_keys=True).encode()).hexdigest()[:16]}
+        for k in diffs[:5]:
+            print(f'SELFTEST-FAIL {prop}/{k}: digests differ between configurations')
+        bad += len(diffs)
+        print(f'selftest-deep {prop}: {len(maps[0])} runs x {len(configs)} configurations, {len(diffs)} diverging')
+    os.makedirs(os.path.join(VERIF_DIR, 'selftest'), exist_ok=True)
+    with open(os.path.join(VERIF_DIR, 'selftest', 'DETERMINISM.json'), 'w') as f:
+        json.dump(report, f, indent=1)
+    return 2 if bad else 0
+
+
 def run_check(prop: str, tier: str, base: int, workers: int, budget_s: Optional[float]) -> int:
     t0 = _real_time.time()
     mod = load_prop(prop)
@@ -509,12 +567,16 @@ def main(argv: Optional[List[str]] = None) -> int:
     ap.add_argument('--replay')
     ap.add_argument('--strict-digest', action='store_true')
     ap.add_argument('--print-digests', type=int)
+    ap.add_argument('--digest-map', type=int)
+    ap.add_argument('--deep', type=int)
     ap.add_argument('--workers', type=int, default=int(os.environ.get('VERIF_WORKERS', '16')))
     ap.add_argument('--budget', type=float, default=float(os.environ['VERIF_BUDGET_S'])
                     if os.environ.get('VERIF_BUDGET_S') else None)
     args = ap.parse_args(argv)
     logging.disable(logging.CRITICAL)
     base = int(os.environ.get('VERIF_SEED', '0') or 0)
+    if args.prop == 'selftest' and args.deep:
+        return selftest_deep([p.upper() for p in (args.rest or CLAIMED)], base, args.deep)
     if args.prop == 'selftest':
         props = args.rest or CLAIMED
         bad: List[str] = []
@@ -527,6 +589,9 @@ def main(argv: Optional[List[str]] = None) -> int:
     prop = args.prop.upper()
     if args.print_digests is not None:
         return print_digests(prop, base, args.print_digests)
+    if args.digest_map is not None:
+        print(json.dumps(digest_map(prop, base, args.digest_map, args.workers)))
+        return 0
     if args.replay:
         return run_replay(prop, args.replay, args.strict_digest)
     return run_check(prop, args.tier, base, args.workers, args.budget)
